@@ -486,3 +486,281 @@ Proof.
     + rewrite !app_length. pose proof (concat_len_ge l Hall). lia.
     + rewrite !len_app. lia.
 Qed.
+
+(* ---------- top level ---------- *)
+Lemma convert_loop_ok fuel : forall l lf blen pos acc,
+  Forall (reads_back fuel) l ->
+  Forall (fun x => canon x = true) l ->
+  (length l < lf)%nat -> pos + len (concat (map enc_tree_field l)) = blen ->
+  convert_loop true lf fuel blen (concat (map enc_tree_field l)) pos acc = Ok (rev acc ++ l).
+Proof.
+  induction l as [|x xs IH]; intros lf blen pos acc Hrb Hc Hlf Hfit.
+  - destruct lf as [|lf']; [cbn [length] in Hlf; lia|].
+    cbn [map concat] in *. change (len (@nil N)) with 0 in Hfit.
+    cbn [convert_loop]. replace (pos =? blen) with true by (symmetry; apply N.eqb_eq; lia).
+    now rewrite app_nil_r.
+  - destruct lf as [|lf']; [cbn [length] in Hlf; lia|].
+    pose proof (Forall_inv Hrb) as Hx. pose proof (Forall_inv_tail Hrb) as Hxs.
+    pose proof (Forall_inv Hc) as Hcx. pose proof (Forall_inv_tail Hc) as Hcxs.
+    destruct (canon_ty_id x Hcx) as (Ht & Hnz & Hid).
+    pose proof (fields_cons_app x xs []) as Hsplit. rewrite !app_nil_r in Hsplit.
+    rewrite Hsplit in Hfit. rewrite Hsplit. clear Hsplit.
+    rewrite !len_app in Hfit.
+    assert (H3 : len (enc (IFieldBegin (uf_ty x) (uf_id x))) = 3) by (unfold len; now rewrite length_enc_fb).
+    cbn [convert_loop].
+    destruct (N.eqb_spec pos blen) as [E|_]; [lia|].
+    rewrite slice_at_ok by lia. cbn [bind].
+    rewrite rd_field_begin by assumption. cbn [bind].
+    rewrite drop_app_len.
+    rewrite slice_at_ok by lia. cbn [bind].
+    rewrite Hx. cbn [bind]. rewrite drop_app_len.
+    rewrite IH; auto.
+    + cbn [rev]. now rewrite <- app_assoc.
+    + cbn [length] in Hlf. lia.
+    + lia.
+Qed.
+
+Lemma in_concat_fields_len x (l : list ufield) :
+  In x l -> (length (enc_tree x) <= length (concat (map enc_tree_field l)))%nat.
+Proof.
+  intros Hx. pose proof (concat_len_in enc_tree_field x l Hx) as Hle.
+  unfold enc_tree_field at 1 in Hle. rewrite app_length in Hle. lia.
+Qed.
+
+Lemma fields_len_ge (l : list ufield) : (length l <= length (concat (map enc_tree_field l)))%nat.
+Proof.
+  induction l as [|x xs IH]; [cbn; lia|].
+  cbn [map concat length]. unfold enc_tree_field at 1. rewrite !app_length, length_enc_fb. lia.
+Qed.
+
+Lemma convert_canon ts : ts <> [] -> canon_fields ts = true -> convert (enc_tree_fields ts) = Ok ts.
+Proof.
+  intros Hne Hc. apply forallb_all in Hc.
+  unfold convert, convert_gen, enc_tree_fields.
+  set (buf := concat (map enc_tree_field ts)).
+  destruct (N.eqb_spec (len buf) 0) as [E|_].
+  - exfalso. destruct ts as [|x xs]; [congruence|].
+    unfold buf in E. cbn [map concat] in E. unfold enc_tree_field at 1 in E.
+    unfold len in E. rewrite !app_length, length_enc_fb in E. lia.
+  - unfold buf. rewrite convert_loop_ok; auto.
+    + fold buf. rewrite Forall_forall in Hc. apply Forall_forall. intros x Hx.
+      apply read_canon; [auto|]. pose proof (in_concat_fields_len x ts Hx). fold buf in H. lia.
+    + pose proof (fields_len_ge ts). fold buf in H |- *. lia.
+Qed.
+
+(* ---------- UnknownFieldsLength ---------- *)
+Definition lens_ok (x : ufield) : Prop := field_len x = Ok (len (enc_tree x)).
+
+Lemma len_elems_ok : forall l acc, Forall lens_ok l ->
+  len_elems field_len l acc = Ok (acc + len (concat (map enc_tree l))).
+Proof.
+  induction l as [|x xs IH]; intros acc H.
+  - cbn [len_elems map concat]. change (len (@nil N)) with 0. f_equal. lia.
+  - pose proof (Forall_inv H) as Hx. pose proof (Forall_inv_tail H) as Hxs.
+    cbn [len_elems map concat]. rewrite Hx. cbn [bind]. rewrite IH by assumption. rewrite len_app. f_equal. lia.
+Qed.
+
+Lemma len_pairs_ok kt vt : forall l i acc, Forall lens_ok l -> canon_pairs canon kt vt i l = true ->
+  len_pairs field_len l acc = Ok (acc + len (concat (map enc_tree l))).
+Proof.
+  induction l as [|x|k v r IH] using list_pair_ind; intros i acc H Hc.
+  - cbn [len_pairs map concat]. change (len (@nil N)) with 0. f_equal. lia.
+  - discriminate.
+  - pose proof (Forall_inv H) as Hk. pose proof (Forall_inv (Forall_inv_tail H)) as Hv.
+    pose proof (Forall_inv_tail (Forall_inv_tail H)) as Hr.
+    cbn [canon_pairs] in Hc. apply andb_true_iff in Hc as [_ Hc].
+    cbn [len_pairs map concat]. rewrite Hk. cbn [bind]. rewrite Hv. cbn [bind].
+    rewrite (IH (i + 1)) by assumption. rewrite !len_app. f_equal. lia.
+Qed.
+
+Lemma len_fields_ok : forall l acc, Forall lens_ok l ->
+  len_fields field_len l acc = Ok (acc + len (concat (map enc_tree_field l))).
+Proof.
+  induction l as [|x xs IH]; intros acc H.
+  - cbn [len_fields map concat]. change (len (@nil N)) with 0. f_equal. lia.
+  - pose proof (Forall_inv H) as Hx. pose proof (Forall_inv_tail H) as Hxs.
+    cbn [len_fields map concat]. rewrite Hx. cbn [bind]. rewrite IH by assumption.
+    unfold enc_tree_field at 2. rewrite !len_app.
+    replace (len (enc (IFieldBegin (uf_ty x) (uf_id x)))) with 3 by (unfold len; now rewrite length_enc_fb).
+    change (l_item (IFieldBegin 0 0)) with 3. f_equal. lia.
+Qed.
+
+Lemma children_lens (l : list ufield) :
+  Forall (fun x => canon x = true -> lens_ok x) l -> Forall (fun x => canon x = true) l -> Forall lens_ok l.
+Proof. intros IH Hc. rewrite Forall_forall in *. auto. Qed.
+
+Lemma len_canon : forall x, canon x = true -> lens_ok x.
+Proof.
+  induction x as [id ty kt vt v Hleaf|id ty kt vt l IH] using ufield_ind'; intros Hc;
+    destruct (canon_shape _ Hc) as [Hid Hs];
+    inversion Hs; subst; try (exfalso; eapply Hleaf; reflexivity); unfold lens_ok.
+  - reflexivity.
+  - reflexivity.
+  - reflexivity.
+  - reflexivity.
+  - reflexivity.
+  - reflexivity.
+  - cbn [enc_tree enc]. rewrite len_app, be_len. reflexivity.
+  - match goal with H : forallb canon l = true |- _ => apply forallb_all in H; rename H into Hall end.
+    rewrite field_len_struct, enc_tree_struct, len_fields_ok by (apply children_lens; assumption).
+    rewrite len_app. reflexivity.
+  - match goal with H : canon_pairs _ _ _ _ _ = true |- _ => rename H into Hp end.
+    pose proof (canon_pairs_all _ _ _ _ Hp) as Hall.
+    rewrite field_len_map, enc_tree_map, (len_pairs_ok kt vt l 0) by (try apply children_lens; assumption).
+    rewrite len_app. reflexivity.
+  - match goal with H : canon_elems _ _ _ _ = true |- _ => rename H into Hp end.
+    pose proof (canon_elems_all _ _ _ Hp) as Hall.
+    rewrite field_len_set, enc_tree_set, len_elems_ok by (apply children_lens; assumption).
+    rewrite len_app. reflexivity.
+  - match goal with H : canon_elems _ _ _ _ = true |- _ => rename H into Hp end.
+    pose proof (canon_elems_all _ _ _ Hp) as Hall.
+    rewrite field_len_list, enc_tree_list, len_elems_ok by (apply children_lens; assumption).
+    rewrite len_app. reflexivity.
+Qed.
+
+Lemma fields_len_canon ts : canon_fields ts = true -> fields_len ts = Ok (len (enc_tree_fields ts)).
+Proof.
+  intros Hc. apply forallb_all in Hc. unfold fields_len, enc_tree_fields.
+  rewrite len_fields_ok; [f_equal; lia|].
+  rewrite Forall_forall in *. intros x Hx. apply len_canon; auto.
+Qed.
+
+(* ---------- WriteUnknownFields ---------- *)
+Definition writes_ok (wf : bytes -> ufield -> res (bytes * N)) (x : ufield) : Prop :=
+  forall buf, len (enc_tree x) <= len buf ->
+  wf buf x = Ok (enc_tree x ++ drop (len (enc_tree x)) buf, len (enc_tree x)).
+
+Lemma on_slice_app {A} (pre tail : bytes) (k : bytes -> res (bytes * A)) :
+  on_slice (pre ++ tail) (len pre) k = do (sub', a) <- k tail; Ok (pre ++ sub', a).
+Proof.
+  unfold on_slice, slice_from. rewrite len_app.
+  destruct (N.leb_spec (len pre) (len pre + len tail)) as [_|Hbad]; [|lia].
+  cbn [bind]. rewrite drop_app_len, take_app_len. reflexivity.
+Qed.
+
+Lemma w_elems_ok wf : forall l pre tail, Forall (writes_ok wf) l ->
+  len (concat (map enc_tree l)) <= len tail ->
+  w_elems wf l (pre ++ tail) (len pre) =
+  Ok (pre ++ concat (map enc_tree l) ++ drop (len (concat (map enc_tree l))) tail,
+      len pre + len (concat (map enc_tree l))).
+Proof.
+  induction l as [|x xs IH]; intros pre tail H Hfit.
+  - cbn [w_elems map concat app]. change (len (@nil N)) with 0. rewrite drop_0. f_equal. f_equal. lia.
+  - pose proof (Forall_inv H) as Hx. pose proof (Forall_inv_tail H) as Hxs.
+    cbn [map concat] in *. rewrite len_app in Hfit.
+    cbn [w_elems]. rewrite on_slice_app. rewrite Hx by lia. cbn [bind].
+    rewrite app_assoc. rewrite <- (len_app pre).
+    rewrite IH; [|assumption|rewrite drop_len; lia].
+    rewrite drop_drop, !len_app, <- !app_assoc. f_equal. f_equal. lia.
+Qed.
+
+Lemma w_pairs_ok wf kt vt : forall l i pre tail, Forall (writes_ok wf) l ->
+  canon_pairs canon kt vt i l = true ->
+  len (concat (map enc_tree l)) <= len tail ->
+  w_pairs wf l (pre ++ tail) (len pre) =
+  Ok (pre ++ concat (map enc_tree l) ++ drop (len (concat (map enc_tree l))) tail,
+      len pre + len (concat (map enc_tree l))).
+Proof.
+  induction l as [|x|k v r IH] using list_pair_ind; intros i pre tail H Hc Hfit.
+  - cbn [w_pairs map concat app]. change (len (@nil N)) with 0. rewrite drop_0. f_equal. f_equal. lia.
+  - discriminate.
+  - pose proof (Forall_inv H) as Hk. pose proof (Forall_inv (Forall_inv_tail H)) as Hv.
+    pose proof (Forall_inv_tail (Forall_inv_tail H)) as Hr.
+    cbn [canon_pairs] in Hc. apply andb_true_iff in Hc as [_ Hc].
+    cbn [map concat] in *. rewrite !len_app in Hfit.
+    cbn [w_pairs]. rewrite on_slice_app. rewrite Hk by lia. cbn [bind].
+    rewrite app_assoc. rewrite <- (len_app pre).
+    rewrite on_slice_app. rewrite Hv by (rewrite drop_len; lia). cbn [bind].
+    rewrite app_assoc. rewrite <- (len_app (pre ++ enc_tree k)).
+    rewrite (IH (i + 1)); [|assumption|assumption|rewrite !drop_len; try lia; rewrite drop_len; lia].
+    rewrite !drop_drop, !len_app, <- !app_assoc. f_equal. f_equal. lia.
+Qed.
+
+Lemma concat_fields_cons x xs :
+  concat (map enc_tree_field (x :: xs)) =
+  enc (IFieldBegin (uf_ty x) (uf_id x)) ++ enc_tree x ++ concat (map enc_tree_field xs).
+Proof. cbn [map concat]. unfold enc_tree_field at 1. now rewrite <- app_assoc. Qed.
+
+Lemma w_fields_ok wf : forall l pre tail, Forall (writes_ok wf) l ->
+  len (concat (map enc_tree_field l)) <= len tail ->
+  w_fields wf l (pre ++ tail) (len pre) =
+  Ok (pre ++ concat (map enc_tree_field l) ++ drop (len (concat (map enc_tree_field l))) tail,
+      len pre + len (concat (map enc_tree_field l))).
+Proof.
+  induction l as [|x xs IH]; intros pre tail H Hfit.
+  - cbn [w_fields map concat app]. change (len (@nil N)) with 0. rewrite drop_0. f_equal. f_equal. lia.
+  - pose proof (Forall_inv H) as Hx. pose proof (Forall_inv_tail H) as Hxs.
+    rewrite concat_fields_cons in Hfit. rewrite !concat_fields_cons.
+    rewrite !len_app in Hfit.
+    cbn [w_fields]. rewrite on_slice_app.
+    change (w_field_begin tail (uf_ty x) (uf_id x)) with (w_item tail (IFieldBegin (uf_ty x) (uf_id x))).
+    rewrite w_item_enc by lia. cbn [bind].
+    rewrite app_assoc. rewrite <- (len_app pre).
+    rewrite on_slice_app. rewrite Hx by (rewrite drop_len; lia). cbn [bind].
+    rewrite app_assoc. rewrite <- (len_app (pre ++ enc (IFieldBegin (uf_ty x) (uf_id x)))).
+    rewrite IH; [|assumption|rewrite !drop_len; try lia; rewrite drop_len; lia].
+    rewrite !drop_drop, !len_app, <- !app_assoc. f_equal. f_equal. lia.
+Qed.
+
+Lemma children_writes (l : list ufield) :
+  Forall (fun x => canon x = true -> writes_ok write_field x) l -> Forall (fun x => canon x = true) l ->
+  Forall (writes_ok write_field) l.
+Proof. intros IH Hc. rewrite Forall_forall in *. auto. Qed.
+
+Lemma write_canon : forall x, canon x = true -> writes_ok write_field x.
+Proof.
+  induction x as [id ty kt vt v Hleaf|id ty kt vt l IH] using ufield_ind'; intros Hc;
+    destruct (canon_shape _ Hc) as [Hid Hs];
+    inversion Hs; subst; try (exfalso; eapply Hleaf; reflexivity); intros buf Hfit.
+  - exact (w_item_enc buf (IBool b) Hfit).
+  - exact (w_item_enc buf (IByte z) Hfit).
+  - exact (w_item_enc buf (II16 z) Hfit).
+  - exact (w_item_enc buf (II32 z) Hfit).
+  - exact (w_item_enc buf (II64 z) Hfit).
+  - exact (w_item_enc buf (IDouble b) Hfit).
+  - exact (w_item_enc buf (IString s) Hfit).
+  - match goal with H : forallb canon l = true |- _ => apply forallb_all in H; rename H into Hall end.
+    rewrite enc_tree_struct in *. rewrite len_app in Hfit. change (len (enc IFieldStop)) with 1 in Hfit.
+    rewrite write_field_struct.
+    change (w_fields write_field l buf 0) with (w_fields write_field l ([] ++ buf) (len (@nil N))).
+    rewrite w_fields_ok by (try apply children_writes; try assumption; lia). cbn [bind app].
+    change (len (@nil N)) with 0. rewrite N.add_0_l.
+    rewrite on_slice_app.
+    change (w_field_stop (drop (len (concat (map enc_tree_field l))) buf))
+      with (w_item (drop (len (concat (map enc_tree_field l))) buf) IFieldStop).
+    rewrite w_item_enc by (rewrite drop_len; change (len (enc IFieldStop)) with 1; lia). cbn [bind].
+    rewrite drop_drop, len_app, <- app_assoc. reflexivity.
+  - match goal with H : canon_pairs _ _ _ _ _ = true |- _ => rename H into Hp end.
+    pose proof (canon_pairs_all _ _ _ _ Hp) as Hall.
+    rewrite enc_tree_map in *. rewrite len_app in Hfit.
+    rewrite write_field_map.
+    change (w_map_begin buf kt vt (Z.of_N (len l / 2))) with (w_item buf (IMapBegin kt vt (Z.of_N (len l / 2)))).
+    rewrite w_item_enc by lia. cbn [bind].
+    rewrite (w_pairs_ok write_field kt vt l 0) by (try apply children_writes; try assumption; rewrite drop_len; lia).
+    rewrite drop_drop, len_app, <- app_assoc. reflexivity.
+  - match goal with H : canon_elems _ _ _ _ = true |- _ => rename H into Hp end.
+    pose proof (canon_elems_all _ _ _ Hp) as Hall.
+    rewrite enc_tree_set in *. rewrite len_app in Hfit.
+    rewrite write_field_set.
+    change (w_list_begin buf vt (Z.of_N (len l))) with (w_item buf (IListBegin vt (Z.of_N (len l)))).
+    rewrite w_item_enc by lia. cbn [bind].
+    rewrite w_elems_ok by (try apply children_writes; try assumption; rewrite drop_len; lia).
+    rewrite drop_drop, len_app, <- app_assoc. reflexivity.
+  - match goal with H : canon_elems _ _ _ _ = true |- _ => rename H into Hp end.
+    pose proof (canon_elems_all _ _ _ Hp) as Hall.
+    rewrite enc_tree_list in *. rewrite len_app in Hfit.
+    rewrite write_field_list.
+    change (w_list_begin buf vt (Z.of_N (len l))) with (w_item buf (IListBegin vt (Z.of_N (len l)))).
+    rewrite w_item_enc by lia. cbn [bind].
+    rewrite w_elems_ok by (try apply children_writes; try assumption; rewrite drop_len; lia).
+    rewrite drop_drop, len_app, <- app_assoc. reflexivity.
+Qed.
+
+Lemma write_fields_canon ts buf : canon_fields ts = true -> len (enc_tree_fields ts) <= len buf ->
+  write_fields buf ts = Ok (enc_tree_fields ts ++ drop (len (enc_tree_fields ts)) buf, len (enc_tree_fields ts)).
+Proof.
+  intros Hc Hfit. apply forallb_all in Hc. unfold write_fields, enc_tree_fields in *.
+  change (w_fields write_field ts buf 0) with (w_fields write_field ts ([] ++ buf) (len (@nil N))).
+  rewrite w_fields_ok; [reflexivity| |assumption].
+  rewrite Forall_forall in *. intros x Hx. apply write_canon; auto.
+Qed.
